@@ -86,7 +86,7 @@ Definition authz (st : option cstore) (u p perm : string) : bool :=
 Definition holds (perm_ok : string -> bool) (voter : bool) (g : guard) : bool :=
   match g with
   | GPerm p => perm_ok p
-  | GAll ps => forallb perm_ok ps
+  | GAll ps => forallb perm_ok ps     (* ALL of them: AA is asked once per permission and each must hold *)
   | GJoin => (voter && perm_ok "join") || (negb voter && perm_ok "join-read-only")
              || (negb voter && perm_ok "join-read-replica")
   end.
